@@ -845,8 +845,8 @@ def run(chk):
         chk.case(('C',) + tuple(seq), True)
         if x['bad']:
             chk.impl_traces += 1
-            chk.violation({'module': 'Wire', 'layer': 'loop', 'what': x['bad']['what'],
-                           'classes': sorted(set(seq))[:4]}, {'kind': 'classes', 'seq': seq, 'seed': seed, **x['bad']})
+            chk.violation({'module': 'Wire', 'layer': 'loop', 'what': x['bad']['what'], 'len': len(seq)},
+                          {'kind': 'classes', 'seq': seq, 'seed': seed, **x['bad']})
         for tr, raw, sg in zip(x['traces'], x['raws'], x['segs']):
             traces.append(tr)
             info.append({'seq': seq, 'seed': seed, 'raw': raw, **sg})
